@@ -229,7 +229,7 @@ pub fn c16_case(u: &mut Unstructured) -> AResult<c16::Case> {
 pub fn gcase(u: &mut Unstructured, k: usize) -> AResult<GCase> {
     let stranded = u.arbitrary()?;
     let min_count = *u.choose(&[1u8, 1, 1, 2, 2, 3, 255])?;
-    let entry = *u.choose(&[Entry3::Hash, Entry3::SortedSlice, Entry3::NoExts])?;
+    let entry = *u.choose(&[Entry3::Hash, Entry3::SortedSlice, Entry3::NoExts, Entry3::SortedSliceRaw])?;
     let shards = *u.choose(&[0u8, 0, 0, 2, 3])?;
     let shard_pick = u.arbitrary()?;
     let aux = u.arbitrary()?;
